@@ -4,6 +4,9 @@ import json, os, subprocess
 HERE = os.path.dirname(os.path.abspath(__file__))
 
 CHECKS = {
+ "C17": dict(cat="exploration", tech="runtime monitoring: failing programs over a failure-kind x call-chain catalogue; merged output stream, exit status and printed trace compared with the shadow call stack rebuilt from the activation enter/exit hook events",
+   text="Every defined dynamic failure kind (35 kinds) is provoked at call depths 0-6 through chains of functions, closures, methods, constructors, map/filter callbacks, recursion and functions of an imported module, inside if/else/while/from blocks. Each run must exit 1 with the interpreter's error report (a Rust panic is a deviation), all output printed before the failure must precede the report, the printed function frames must equal the activations open at the error (from H-TRACE) and the generator's call chain, and a failed assert must name file:line:col. Held = no deviation other than listed known findings.",
+   note="Trusted: activation enter/exit hook events; block and native frames are excluded from 'functions and methods'. Panicking failure kinds are recorded genuine defects (known_findings.json).", ref="§3 C17"),
  "C01": dict(cat="exploration", tech="runtime monitoring: generated programs x all driver outcome vectors, stdout/exit compared with an executable reference interpreter",
    text="Seeded random programs (depth<=5, <=80 statements) and a systematic skeleton family (every construct nested in every other with break/continue/return, full from-loop matrix) are executed by the real binary once per driver outcome vector (all vectors up to the decision bound); the exact stdout line sequence, success/failure and failure kind are compared with the reference interpreter mv/cf.py. Held = every comparable execution agreed.",
    note="Trusted: the reference semantics in mv/cf.py (DESIGN §3 C01); bounded: nesting depth 5, 80 statements, 8 (quick) / 11 (thorough) decisions per run, loop trip counts <= 6.", ref="§3 C01"),
